@@ -358,6 +358,19 @@ for _op, _tr in (('add', 'Add'), ('sub', 'Sub'), ('mul', 'Mul'), ('div', 'Div'),
            'integer %s: panics on overflow when the crate is built with overflow checks (dev), wraps otherwise (release); / and %% panic on zero' % _op)(arith_native(_op))
 
 
+@native(r'^std::ops::RangeInclusive::<(i8|i16|i32|i64|isize|u8|u16|u32|u64|usize)>::new$', 'RangeInclusive::new(a, b)')
+def range_incl_new(vm, m, callee, args):
+    return Struct('RangeInclusive', [dv(vm, args[0]), dv(vm, args[1])])
+
+
+@native(r'^std::ops::RangeInclusive::<(i8|i16|i32|i64|isize|u8|u16|u32|u64|usize)>::contains::<', 'RangeInclusive::contains(x): a <= x <= b')
+def range_incl_contains(vm, m, callee, args):
+    r = dv(vm, args[0])
+    x = dv(vm, args[1])
+    a, b = dv(vm, r.fields[0]), dv(vm, r.fields[1])
+    return And(CMPF['le'](a.v, x.v, a.signed), CMPF['le'](x.v, b.v, a.signed))
+
+
 _INTS_RE = r'(i8|i16|i32|i64|isize|u8|u16|u32|u64|usize)'
 
 
